@@ -97,6 +97,14 @@ class Impl:
                 gets.append(str(self.num(c[i])))
             except IndexError:
                 gets.append('-')
+        # reading a slice: the elements a list would give, in that order (a copy, never the collection itself)
+        for a_, b_ in ((None, None), (1, None), (None, -1), (-2, n + 3), (n, 0)):
+            try:
+                part = [self.num(e) for e in c[a_:b_]]
+            except Exception as e:
+                part = f'raised {type(e).__name__}'
+            if part != items[a_:b_]:
+                self.problems.append(('get-slice', f'c[{a_}:{b_}]', f'{part} where a list gives {items[a_:b_]}'))
         return items, (f"items={','.join(map(str, items))} len={len(c)} idx={','.join(idx)} "
                        f"in={''.join(mem)} get={','.join(gets)}")
 
@@ -141,6 +149,10 @@ class Impl:
             elif op == 'clear':
                 sh.clear()
                 c.clear(); r = None
+            elif op == 'delall':
+                # `del c[:]`, every declaration: the collection is emptied (the model's `clear`)
+                sh.clear()
+                del c[:]; r = None
             elif op == 'delslice':
                 # `del c[a:b:k]` (a list's business: sets refuse slices); '-' is an omitted bound
                 a_, b_, k_ = [None if t == '-' else int(t) for t in ws[1:4]]
@@ -238,7 +250,7 @@ def all_ops(n, univ, unique):
     ops += [f'remove {x}' for x in range(univ)]
     if unique:
         ops += [f'discard {x}' for x in range(univ)]
-    ops += ['clear']
+    ops += ['clear', 'delall']
     # bulk additions: nothing, new elements, elements already there, the same new element twice in one batch
     ops += ['extend'] + [f'extend {x}' for x in range(univ)] + [f'extend {x} {y}' for x in range(univ) for y in range(univ)]
     ops += [f'extend {x} {(x + 1) % univ} {x}' for x in range(univ)]
@@ -334,7 +346,7 @@ def run(ctx):
         model_in.append(f'reset {1 if cfg[1] else 0} {univ}')
         expect.append(None)
         for l, r in zip(lines, recs):
-            model_in.append(l)
+            model_in.append('clear' if l == 'delall' else l)
             expect.append((cfg, univ, lines, r))
         last = recs[-1]
         prev_items = recs[-2].split(' ')[2] if len(recs) > 1 else 'items='
